@@ -415,6 +415,7 @@ RULES = [
     ("C04.who", rule_listwho),
     ("C04.parked", rule_parked),
     ("C04.wakeorder", lambda c, r: pat.shared(__import__("sa.rules.c03", fromlist=["x"]).rule_enq, "C04.wakeorder", lambda x: ("reset≺wake" in x["instance"] or "FULL≺test" in x["instance"] or "enqueue≺" in x["instance"]) or x["status"] != "pass")(c, r)),   # the barrier's marker callbacks and its completion are delivered through these wake-ups: word reset before FUTEX_WAKE, or a helper/barrier that re-arms in between sleeps forever
+    ("C04.pause", lambda c, r: pat.shared(__import__("sa.rules.c16", fromlist=["x"]).rule_pause, "C04.pause", lambda x: "before." in x["instance"] or x["status"] != "pass")(c, r)),   # rcu_barrier() in a fork child: a helper that was not parked across fork() leaves its spliced-out batch and its reader registration behind
     ("C04.child", lambda c, r: __import__("sa.rules.c16", fromlist=["x"]).rule_child(c, r, "C04.child", callrcu_only=True)),   # rcu_barrier() in a fork child: every inherited helper (default or not) is replaced by a live one or emptied, or the barrier waits on a thread that does not exist
 ]
 FLOORS = {}
